@@ -750,6 +750,10 @@ impl<'a> Tr<'a> {
         };
         if segs.len() == 1 {
             match segs[0].as_str() {
+                "Ok" if matches!(expected, Some(Ty::FmtRes)) || (self.ret_ty == Ty::FmtRes && expected.is_none() && args.len() == 1 && matches!(args[0], syn::Expr::Tuple(t) if t.elems.is_empty())) => {
+                    // `Ok(())` of a `fmt::Result`
+                    return Ok(Val::pure_("()", Ty::FmtRes));
+                }
                 "Ok" => {
                     one(self)?;
                     let inner_exp = match expected {
